@@ -11,6 +11,7 @@ mod build;
 mod exact;
 mod gen;
 mod monitor;
+mod mps_model;
 mod props;
 mod rng;
 
